@@ -188,6 +188,62 @@ func c03BatchProgram(g *prog.Gen, idx int) []*prog.Op {
 	return ops
 }
 
+// c03CopyVersionNext: CopyObject / UploadPartCopy / GET / DELETE naming a VERSION of the source under
+// key-dependent policies (exact-key Deny next to a prefix Allow and the reverse) in a versioned bucket: the
+// decision is about the key, whatever version id the request carries.
+func c03CopyVersionNext(g *prog.Gen, idx int, hist []*prog.Step) *prog.Op {
+	b, keys := "bkt-a", []string{"k1", "dir/k2", "obj.txt"}
+	n := len(hist)
+	total := 22 + idx%10
+	switch {
+	case n == 0:
+		return &prog.Op{Kind: "createBucket", Caller: []string{"root", "u:up1"}[idx%2], B: b, Valid: true}
+	case n == 1:
+		return &prog.Op{Kind: "putVersioning", Caller: "root", B: b, On: true}
+	case n < 2+2*len(keys):
+		return &prog.Op{Kind: "putObject", Caller: "root", B: b, K: keys[(n-2)%len(keys)], Put: &prog.PutSpec{Data: []prog.Seg{{Seed: 3600 + n, Off: 0, Len: 30 + n}}}, Valid: true}
+	case n == 2+2*len(keys):
+		pol := &prog.Policy{ID: 9500 + idx}
+		all := []string{"s3:GetObject", "s3:PutObject", "s3:DeleteObject", "s3:GetObjectVersion", "s3:ListBucket", "s3:GetObjectTagging", "s3:PutObjectTagging"}
+		res := []string{b + "/dir/*", b + "/k1", b + "/*.txt", b + "/*", b + "/dir/k2", b + "/obj.txt"}
+		pol.Stmts = append(pol.Stmts, prog.Stmt{Allow: true, Principals: []string{"usr1", "usr2"}, Actions: all, Resources: []string{b, res[3-g.R.Intn(2)*3+g.R.Intn(1)]}})
+		pol.Stmts = append(pol.Stmts, prog.Stmt{Allow: false, Principals: []string{[]string{"usr1", "*"}[g.R.Intn(2)]},
+			Actions: [][]string{{"s3:GetObject"}, {"s3:GetObject", "s3:GetObjectVersion"}, {"s3:DeleteObject"}, {"s3:*"}}[g.R.Intn(4)], Resources: []string{res[[]int{1, 4, 5, 0, 2}[g.R.Intn(5)]]}})
+		return &prog.Op{Kind: "putBucketPolicy", Caller: "root", B: b, Policy: pol, Valid: true}
+	case n >= total:
+		return nil
+	}
+	vids := c09KnownVids(hist)
+	k := keys[g.R.Intn(len(keys))]
+	vid := ""
+	if len(vids[k]) > 0 && g.R.Chance(75) {
+		vid = vids[k][g.R.Intn(len(vids[k]))]
+	}
+	caller := []string{"u:usr1", "u:usr2", "u:usr1", "u:up1"}[g.R.Intn(4)]
+	ups := c08Uploads(hist)
+	var open []*c08Upload
+	for _, u := range ups {
+		if !u.done {
+			open = append(open, u)
+		}
+	}
+	switch r := g.R.Intn(100); {
+	case r < 40:
+		return &prog.Op{Kind: "copyObject", Caller: caller, SB: b, SK: k, SVid: vid, B: b, K: []string{"copy-1", "dir/copy-2", "c.txt"}[g.R.Intn(3)], Valid: true}
+	case r < 50:
+		return &prog.Op{Kind: "createUpload", Caller: "root", B: b, K: "mp-" + k, Put: &prog.PutSpec{}, Valid: true}
+	case r < 70 && len(open) > 0:
+		u := open[g.R.Intn(len(open))]
+		return &prog.Op{Kind: "uploadPartCopy", Caller: caller, B: b, K: u.key, UpID: u.id, Num: 1 + g.R.Intn(2), SB: b, SK: k, SVid: vid}
+	case r < 85:
+		return &prog.Op{Kind: "getObject", Caller: caller, B: b, K: k, Vid: vid}
+	case r < 92:
+		return &prog.Op{Kind: "getObjectTagging", Caller: caller, B: b, K: k, Vid: vid}
+	default:
+		return &prog.Op{Kind: "deleteObject", Caller: caller, B: b, K: k, Vid: vid}
+	}
+}
+
 func init() {
 	checks["c03"] = checkDef{"C03",
 		"(1) discriminating-policy programs: for every stage-1 op template × every policy action, a policy allowing exactly one action on one resource shape to one caller (optionally with a Deny on the object), then that caller performs the op and root observes the effect; (2) random programs over buckets with different owners, canned ACLs, ownership settings and random valid policies, callers root/admin/userplus/user. Each step compared with Model.Gw.step. Non-trivial = program reaches an existing bucket; distinct by op list.",
@@ -203,5 +259,7 @@ func init() {
 			return runPrograms(a, res, progOpts{name: "batch-delete-under-policy", prop: "C03", programs: tierN(a, 40, 800), gen: c03BatchProgram, classify: c03Classify, seedOff: 35})
 		}, func(a lib.Args, res *lib.Result) error {
 			return runPrograms(a, res, progOpts{name: "multipart-under-policy", prop: "C03", programs: tierN(a, 60, 1500), next: c03MultipartNext, classify: c03Classify, seedOff: 34})
+		}, func(a lib.Args, res *lib.Result) error {
+			return runPrograms(a, res, progOpts{name: "versions-under-policy", prop: "C03", programs: tierN(a, 60, 1500), next: c03CopyVersionNext, versioning: true, classify: c03Classify, seedOff: 36})
 		}}}
 }
